@@ -38,9 +38,9 @@ def scenarios(ctx, n):
         else:
             sizes = gen.random_composition(r, N)
         w, m, v, sc = gen.gmm_params(r, C, D)
-        x = gen.maybe_int(r, gen.sample_data(r, w, m, v, N))
+        x = gen.maybe_int(r, gen.sample_data(r, w, m, v, N), p=0.35)
         perm = r.permutation(N) if i % 3 == 2 else np.arange(N)
-        out.append(dict(C=C, D=D, w=w, m=m, v=v, x=x, sizes=sizes, perm=perm))
+        out.append(dict(C=C, D=D, w=w, m=m, v=v, x=x, x_dtype=str(x.dtype), sizes=sizes, perm=perm))
     return out
 
 
@@ -181,16 +181,18 @@ def oracle(sc):
     """split-and-add == whole; n >= 0, sum n == t; moments from an independent posterior."""
     from props.c01 import reference_ll
 
-    w, m, v, x = (np.asarray(sc[k], dtype=float) for k in ("w", "m", "v", "x"))
+    w, m, v = (np.asarray(sc[k], dtype=float) for k in ("w", "m", "v"))
+    x = np.asarray(sc["x"]).astype(sc.get("x_dtype", "float64"))  # the array the implementation is given (its dtype is part of the input)
     g = gen.mk_gmm(w, m, v)
     perm = np.asarray(sc.get("perm", np.arange(len(x))), dtype=int)
     blocks = gen.split(x[perm], sc["sizes"])
     whole = core.impl(lambda: gen.stats_impl(g.acc_stats(x)))
     if isinstance(whole, core.ImplError):
         return {"sig": "acc_stats-raises", "what": repr(whole)}
-    ref, comp = reference_ll(w, m, v, x)
+    xf = x.astype(float)
+    ref, comp = reference_ll(w, m, v, xf)
     resp = np.exp(comp - ref[None, :])
-    exp = {"n": resp.sum(1), "px": resp @ x, "pxx": resp @ (x * x), "ll": float(ref.sum()), "t": len(x)}
+    exp = {"n": resp.sum(1), "px": resp @ xf, "pxx": resp @ (xf * xf), "ll": float(ref.sum()), "t": len(x)}
     if not gen.stats_close(whole, exp, 1e-8, 1e-9):
         return {"sig": "stats-not-posterior-moments", "what": f"acc_stats differs from responsibility-weighted moments: n={whole['n'].tolist()} expected {exp['n'].tolist()}"}
     if np.any(whole["n"] < 0) or abs(whole["n"].sum() - len(x)) > 1e-8 * max(1, len(x)):
@@ -238,7 +240,7 @@ def search(ctx):
         f = oracle(sc)
         ctx.case(["s", core.tolist(sc["x"]), sc["sizes"]], nontrivial=len(sc["sizes"]) > 1)
         if f:
-            f["input"] = {k: sc[k] for k in ("w", "m", "v", "x", "sizes", "perm")}
+            f["input"] = {k: sc[k] for k in ("w", "m", "v", "x", "x_dtype", "sizes", "perm")}
             fails.append(f)
             if len(fails) >= 3:
                 break
